@@ -58,6 +58,16 @@ def search(prop, failure):
     return r
 
 
+def sweep(prop):
+    """bounded stand-in: run every scenario family on the real code; returns dict(scenarios, families, violations[...])"""
+    exe = build()
+    p = subprocess.run([exe, "sweep", prop], capture_output=True, text=True, timeout=1800)
+    try:
+        return json.loads(p.stdout.strip().split("\n")[-1])
+    except Exception:
+        raise RuntimeError("sweep gave no result: %s" % (p.stdout + p.stderr)[-400:])
+
+
 def replay(prop, path):
     rec = json.load(open(path))
     w = rec.get("witness") or {}
